@@ -15,7 +15,7 @@ from textwrap import dedent
 from types import TracebackType
 
 from .selector import Element, check_element
-from .tags import enter_tag, exit_tag, get_tags
+from .tags import Tag, TagSet, enter_tag, exit_tag, get_tags
 from .utils import ABSENT, DictPile
 
 _IDX = count()
@@ -261,6 +261,19 @@ class PteraTransformer(NodeTransformer):
 
         return ann
 
+    def _record_annotation(self, target, ann):
+        """Record the annotation of a variable for the function's info."""
+        value = self._evaluate(ann)
+        previous = self.annotated.get(target.id, ABSENT)
+        if isinstance(previous, (Tag, TagSet)):
+            # A variable that is annotated in several places carries the
+            # tags of all of them
+            if not isinstance(value, (Tag, TagSet)):
+                return
+            value = previous & value
+        self.annotated[target.id] = value
+        self.linenos[target.id] = target.lineno
+
     def _evaluate(self, node):
         if node in self.evalcache:
             return self.evalcache[node]
@@ -373,8 +386,7 @@ class PteraTransformer(NodeTransformer):
         """Create code for setting the value of a variable."""
         prelude = []
         if ann and isinstance(target, ast.Name):
-            self.annotated[target.id] = self._evaluate(ann)
-            self.linenos[target.id] = target.lineno
+            self._record_annotation(target, ann)
         ann_arg = ann if ann else ast.Constant(value=None)
         value_arg = self._get("ABSENT") if value is None else value
         if isinstance(target, ast.Name):
@@ -760,8 +772,7 @@ class PteraTransformer(NodeTransformer):
             # variable is instrumented (and thus supplied from outside),
             # leave the statement as it is.
             if isinstance(node.target, ast.Name):
-                self.annotated[node.target.id] = self._evaluate(ann)
-                self.linenos[node.target.id] = node.target.lineno
+                self._record_annotation(node.target, ann)
             return node
         return self.make_interaction(
             node.target,
